@@ -265,9 +265,12 @@ theorem marshalHeader_ok (o : Oracle) (h : Header) (b : Bytes) (hr : (marshalHea
 /-- Key-wrap law for the wrapping algorithms (RSA1_5, RSA-OAEP*, A*KW, A*GCMKW, PBES2-*): what the sender's
     wrapper `kw` produced is unwrapped by the recipient's wrapper `kw'` when it is given the header
     parameters *as they stand after WrapKey* (iv, tag, p2s, p2c written through the setters), whatever
-    `enc` is set afterwards.  A count written by WrapKey is not negative. -/
+    `enc` is set afterwards.  A count written by WrapKey is not negative.  (Stated for CEKs of at least one 64-bit
+    block: AES Key Wrap of the empty string is not invertible; every content encryption's CEK has 16..64 octets —
+    `CEKSized`.) -/
 def WrapLaw (o : Oracle) (kw kw' : Wire) : Prop :=
-  ∀ cek h data upd, o ⟨"kw.wrap", [kw, .bytes cek, optsView [some h]]⟩ = .arr [.bytes data, upd] →
+  ∀ cek h data upd, 8 ≤ cek.length →
+    o ⟨"kw.wrap", [kw, .bytes cek, optsView [some h]]⟩ = .arr [.bytes data, upd] →
     (∀ enc, o ⟨"kw.unwrap", [kw', .bytes data, optsView [some { applyUpdates h upd with enc := enc }]]⟩ = .bytes cek) ∧
     (∀ n, upd.get? "p2c" = some (.int n) → 0 ≤ n)
 
@@ -277,6 +280,18 @@ def WrapLaw (o : Oracle) (kw kw' : Wire) : Prop :=
 def DeriveLaw (o : Oracle) (kw kw' : Wire) : Prop :=
   ∀ h cek ek, o ⟨"kw.derive", [kw, optsView [some h]]⟩ = .arr [.bytes cek, .bytes ek] →
     o ⟨"kw.unwrap", [kw', .bytes ek, optsView [some h]]⟩ = .bytes cek
+
+/-- the CEK generator of every content encryption returns at least one 64-bit block (16..64 octets in fact) -/
+def CEKSized (o : Oracle) (enc : String) : Prop :=
+  ∀ b, o ⟨"enc.generateCEK", [.str enc]⟩ = .bytes b → 8 ≤ b.length
+
+theorem generateCEK_ok (o : Oracle) (enc : String) (cek : Bytes) (h : (generateCEK enc).run o = .ok cek) :
+    o ⟨"enc.generateCEK", [.str enc]⟩ = .bytes cek := by
+  unfold generateCEK at h
+  simp only [PO.run_bind, PO.run_query] at h
+  split at h
+  · simp only [PO.run_pure] at h; cases h; assumption
+  · simp at h
 
 theorem applyUpdates_fields (h : Header) (upd : Wire) :
     (applyUpdates h upd).raw = h.raw ∧ (applyUpdates h upd).crit = h.crit ∧ (applyUpdates h upd).epk = h.epk ∧
@@ -300,7 +315,7 @@ theorem kwWrap_ok (o : Oracle) (kw : Wire) (cek : Bytes) (h : Header) (data : By
 /-- C05, first sentence, compact serialization, wrapping algorithms. -/
 theorem roundtrip_compact_wrap (o : Oracle) (L : Laws o) (enc : String) (kw kw' : Wire)
     (prot : Option Header) (pt : Bytes) (hnd : isDeriver kw = false) (hok : HeaderOK (clone prot))
-    (hw : WrapLaw o kw kw')
+    (hw : WrapLaw o kw kw') (hgen : CEKSized o enc)
     (hfind : ∀ raw, o ⟨"findKeyWrapper", [.obj raw, .none, .none]⟩ = kw') (hk : kw'.isNone = false)
     (msg : Message) (henc : (newMessageWithKW enc kw prot pt).run o = .ok msg) :
     (compact msg >>= parse >>= decrypt).run o = .ok pt := by
@@ -315,7 +330,7 @@ theorem roundtrip_compact_wrap (o : Oracle) (L : Laws o) (enc : String) (kw kw' 
     simp only [b64Encode_run, PO.run_bind] at henc
     obtain ⟨ct, tag, hseal, hmsg⟩ := sealWith_ok _ _ _ _ _ _ _ _ _ _ henc
     obtain ⟨upd, hq, hh1⟩ := kwWrap_ok _ _ _ _ _ _ hwrap
-    obtain ⟨hun, hp2c⟩ := hw _ _ _ _ hq
+    obtain ⟨hun, hp2c⟩ := hw _ _ _ _ (hgen _ (generateCEK_ok _ _ _ hcek)) hq
     obtain ⟨f1, f2, f3, f4, f5⟩ := applyUpdates_fields (clone prot) upd
     have hmar' := marshalHeader_ok _ _ _ hmar
     subst hh1
@@ -503,30 +518,24 @@ end Conformant
 /-! ## the first sentence: what is proved, what is not -/
 
 /-
-FULL STATEMENT (C05, first sentence, as it should hold):
-
-  theorem jwe_roundtrip : ∀ alg ∈ allAlgs, ∀ enc ∈ encNames, ∀ zip plaintext serialisation recipients,
-    ∀ o, Laws o → (the key-management oracle of `alg` is correct in the sense of RFC 7518 §4: for the
-      wrapping algorithms `WrapLaw`, for `dir` `DeriveLaw`, and for the ECDH-ES family the Diffie-Hellman law
-        derive(sender's ephemeral private key a, peer = recipient's public key B)
-          = unwrap(recipient's private key b, epk = sender's ephemeral public key A)) →
-    decrypt (parse (serialize (encrypt plaintext))) = ok plaintext
-
-It is FALSE of goat for alg ∈ {ECDH-ES, ECDH-ES+A128KW, ECDH-ES+A192KW, ECDH-ES+A256KW}: `DeriveKey` and
-`UnwrapKey` are both handed the header's `epk`, i.e. the same public key P on both sides, and
-a·P ≠ b·P (finding c05-ecdhes-jwe-sender; `ecdhes_sender_fails` below).  Proved: the statement for every
-other algorithm (`jwe_roundtrip_partial`), for the compact serialization; the JSON serializations
-(one / several recipients) are covered by the correspondence check only (docs/C05.md).
+The full statement of the first sentence — every serialization goat can emit (compact; general JSON with any
+number of recipients), every key-management mode, every enc, zip on/off — is `jwe_roundtrip` in
+GoatProofs/Lemmas/C05JsonProducer.lean.  It holds with two producer paths excluded by NAMED hypotheses, one per
+recorded finding: the ECDH-ES family on the sending side (c05-ecdhes-jwe-sender: `DeriveKey` and `UnwrapKey` are both
+handed the header's `epk`, i.e. the same public key P on both sides, and a·P ≠ b·P — `ecdhes_sender_fails` below),
+and NewMessageWithKW with a parameter-publishing first algorithm followed by Encrypt
+(c05-withkw-encrypt-param-collision).  The theorems of this file are its compact case.
 -/
 
-/-- C05, first sentence — PARTIAL: compact serialization; every key-management algorithm except the
-    ECDH-ES family on the sending side (for which the law the theorem needs does not hold).
+/-- C05, first sentence, compact case (name kept from the first round; see `jwe_roundtrip` for the full statement):
+    every key-management algorithm except the ECDH-ES family on the sending side (for which the law the theorem
+    needs does not hold).
     `kw` is the sender's wrapper, `kw'` the one the recipient's finder returns. -/
 theorem jwe_roundtrip_partial (o : Oracle) (L : Laws o) (enc : String) (kw kw' : Wire)
     (prot : Option Header) (pt : Bytes)
     (halg : kwAlg kw ∈ allAlgs) (hnot : kwAlg kw ∉ ecdhesAlgs)
     (hok : HeaderOK (clone prot))
-    (hlaw : if isDeriver kw then DeriveLaw o kw kw' else WrapLaw o kw kw')
+    (hlaw : if isDeriver kw then DeriveLaw o kw kw' else WrapLaw o kw kw') (hgen : CEKSized o enc)
     (hfind : ∀ raw, o ⟨"findKeyWrapper", [.obj raw, .none, .none]⟩ = kw') (hk : kw'.isNone = false)
     (msg : Message) (henc : (newMessageWithKW enc kw prot pt).run o = .ok msg) :
     (compact msg >>= parse >>= decrypt).run o = .ok pt := by
@@ -535,7 +544,7 @@ theorem jwe_roundtrip_partial (o : Oracle) (L : Laws o) (enc : String) (kw kw' :
     exact roundtrip_compact_derive o L enc kw kw' prot pt hd hok hlaw hfind hk msg henc
   · have hd' : isDeriver kw = false := by simpa using hd
     simp only [hd', Bool.false_eq_true, if_false] at hlaw
-    exact roundtrip_compact_wrap o L enc kw kw' prot pt hd' hok hlaw hfind hk msg henc
+    exact roundtrip_compact_wrap o L enc kw kw' prot pt hd' hok hlaw hgen hfind hk msg henc
 
 /-- The excluded point violates the full statement in the model.  In the DeriveKey path the recipient's
     `UnwrapKey` is queried with exactly the options the sender's `DeriveKey` got (same `epk`); so whenever
